@@ -1538,6 +1538,14 @@ Proof.
 Qed.
 
 (* non-vacuity of the hypotheses used above *)
+Example fresh_instance : fresh K_triangle (slots full_triangle) /\ wf_slots full_triangle.
+Proof.
+  split.
+  - intros t Hin. destruct (K_triangle t) eqn:E; auto. apply K_triangle_spec in E. destruct E as [_ E].
+    apply sub_incl in E. specialize (E _ Hin). vm_compute in E. intuition discriminate.
+  - split; [vm_compute; discriminate|]. intros e He. vm_compute in He.
+    repeat (destruct He as [<-|He]; [vm_compute; auto|]). destruct He.
+Qed.
 Example add_edge_without_blockers_instance :
   let c := remove_star_edge 3 complete4 0 1 in
   has_edge c 0 1 = false /\ wf_blk c /\ (forall beta, In beta (blk c) -> ~ (In 0 beta /\ In 1 beta)) /\
